@@ -90,6 +90,14 @@ func vc02MetaMatches(meta map[string]any, want *vfxTx) string {
 	return ""
 }
 
+// the position index of a reply: the archived one, or none when the archive has none
+func vc02IdxOK(noIdx bool, got *uint64, want int) bool {
+	if noIdx {
+		return got == nil
+	}
+	return got != nil && int(*got) == want
+}
+
 func TestVerif_C02(t *testing.T) {
 	rep := vh.NewReport("C02", "rpc",
 		"every archived block / transaction of the generated epochs x {JSON-RPC base58, base64, base64+zstd, json; gRPC} x epoch sets {one, two, all incl. epoch 0 with genesis} x search concurrency {1, NumCPU}; a case = one request compared field by field with the generator's truth; distinct by (epoch set, api, encoding, key)")
@@ -101,7 +109,11 @@ func TestVerif_C02(t *testing.T) {
 	e1.NumSlots, e1.FrameSize, e1.FanOut, e1.MaxTx, e1.ZeroTimes = 16, 70, 2, 4, true
 	e2 := vfxDefaultSpec("c02e2", 2, seed+2)
 	e2.NumSlots, e2.FrameSize, e2.FanOut, e2.BigObjects, e2.MaxEntries, e2.MultiSig, e2.Boundary = 14, 90, 5, true, 4, true, true
-	specs := []vfxSpec{e0, e1, e2}
+	// transactions without the optional position index (archives written before the field existed); blocks with
+	// more than 12 transactions, so that an unstable sort on the absent positions would show
+	eN := vfxDefaultSpec("c02noidx", 5, seed+4)
+	eN.NumSlots, eN.MaxEntries, eN.MaxTx, eN.NoTxIndex, eN.SkipPercent = 10, 5, 6, true, 10
+	specs := []vfxSpec{e0, e1, e2, eN}
 	if vh.Thorough() {
 		e3 := vfxDefaultSpec("c02e3", 700, seed+3)
 		e3.NumSlots, e3.FrameSize, e3.FanOut, e3.MaxTx, e3.BigObjects = 60, 70, 10, 6, true
@@ -119,9 +131,9 @@ func TestVerif_C02(t *testing.T) {
 			t.Fatalf("setup failed: fixture %s: %s", tr.Spec.Name, tr.BuildErr)
 		}
 	}
-	sets := [][]int{{1}, {1, 2}, {0, 1, 2}}
+	sets := [][]int{{1}, {1, 2}, {0, 1, 2}, {3}, {3, 1}}
 	if vh.Thorough() {
-		sets = append(sets, []int{0}, []int{2}, []int{0, 2}, []int{0, 1, 2, 3}, []int{3, 1})
+		sets = append(sets, []int{0}, []int{2}, []int{0, 2}, []int{0, 1, 2, 4}, []int{4, 1})
 	}
 	concs := []int{1, runtime.NumCPU()}
 	ctx := context.Background()
@@ -306,7 +318,7 @@ func TestVerif_C02(t *testing.T) {
 							wantRaw, _ := base64.StdEncoding.DecodeString(byPos[i].TxB64)
 							wantMeta, _ := base64.StdEncoding.DecodeString(byPos[i].MetaB64)
 							g := gb.Transactions[i]
-							if !bytes.Equal(g.Transaction, wantRaw) || !bytes.Equal(g.Meta, wantMeta) || g.Index == nil || int(*g.Index) != byPos[i].Pos {
+							if !bytes.Equal(g.Transaction, wantRaw) || !bytes.Equal(g.Meta, wantMeta) || !vc02IdxOK(tr.Spec.NoTxIndex, g.Index, byPos[i].Pos) {
 								diffs = append(diffs, fmt.Sprintf("transaction #%d (bytes/meta/index)", i))
 							}
 						}
@@ -374,7 +386,7 @@ func TestVerif_C02(t *testing.T) {
 					wantMeta, _ := base64.StdEncoding.DecodeString(want.MetaB64)
 					if gerr != nil || gtx.Transaction == nil {
 						rep.Fail("archived-transaction-not-served:grpc", fmt.Sprintf("%s %s: %v", tag, want.Sig, gerr), replay)
-					} else if !bytes.Equal(gtx.Transaction.Transaction, wantRaw) || !bytes.Equal(gtx.Transaction.Meta, wantMeta) || gtx.Slot != want.Slot || gtx.BlockTime != b.Blocktime || gtx.Index == nil || int(*gtx.Index) != want.Pos {
+					} else if !bytes.Equal(gtx.Transaction.Transaction, wantRaw) || !bytes.Equal(gtx.Transaction.Meta, wantMeta) || gtx.Slot != want.Slot || gtx.BlockTime != b.Blocktime || !vc02IdxOK(tr.Spec.NoTxIndex, gtx.Index, want.Pos) {
 						rep.Fail("transaction-reply-differs-from-archive:grpc", fmt.Sprintf("%s %s: slot %d time %d index %v", tag, want.Sig, gtx.Slot, gtx.BlockTime, gtx.Index), replay)
 					}
 				}
